@@ -1074,6 +1074,7 @@ def run_C07(ctx):
         ctx.rejects.append({"tid": tid, "clause": clause, "records": p, "s": "sizing", "pspec": "P_Sizing", "pconsts": {}, "hist": None, "scenarios": None, "kind": "sizing"})
     sample_records(ctx, p, 2)
     extra_constructors(ctx)
+    extra_extend(ctx)
     # the quotient-filter clause of C07 (false positives only from fingerprint collisions) is the exact-set invariant of C13
     qf_e1(ctx, [(2, 1), (2, 2)])
     qf_e2(ctx, [(2, 2)], pairs=0)
@@ -1098,6 +1099,27 @@ def extra_constructors(ctx):
         log("EXTRA (constructor contract, not a verdict): case %d: %s" % (tid, clause))
     if rej:
         ctx.notes.append("constructor contract mismatches (extra coverage): %d" % len(rej))
+
+
+def extra_extend(ctx):
+    """Extra coverage (not a listed property): Extend::extend equals repeated add for the five structures that
+    implement it.  Mismatches are reported as notes (clause prefix X.), never as a verdict."""
+    w = ctx.sub("extend")
+    c = {"EMIT": "FALSE", "MaxPre": 2, "MaxExt": 3 if ctx.quick else 4, "NKeys": 3}
+    ctx.e1.append(vlib.model_check("Gen_Extend", c, ["Inv"], ctx.sub("e1"), workers=1))
+    c["EMIT"] = "TRUE"
+    gen, st = vlib.generate("Gen_Extend", c, w, "cases.out")
+    p = os.path.join(w, "p.ndjson")
+    stats = vlib.vh(["ext", "all", "--gen", gen, "--out", p], w)
+    n, rej = vlib.adjudicate("P_Extend", p, w, parallel=1)
+    ctx.judged += n
+    ctx.executed += stats["cases"]
+    ctx.e2_transitions += stats["cases"]
+    ctx.extra["extend_equals_repeated_add"] = {"cases": stats["cases"], "mismatches": sorted(set(cl for _, cl in rej))}
+    for tid, clause in rej[:10]:
+        log("EXTRA (Extend::extend, not a verdict): case %d: %s" % (tid, clause))
+    if rej:
+        ctx.notes.append("Extend::extend mismatches (extra coverage): %d" % len(rej))
 
 
 def sizing_replay(ctx, rp):
